@@ -1,6 +1,7 @@
 import LyModel.Val.Model
 import LyModel.XsdRe.Parse
 import LyModel.Generated.ValExt
+import LyModel.Val.Ident
 /-!
 # `union` and string `pattern` restrictions (component `Val`, property C03)
 
@@ -18,7 +19,8 @@ Executable model of
   the EARLIER member is the greater one), `lyplg_type_print_union` (canonical = the member's canonical value;
   LYB = index + member LYB), `lyplg_type_dup_union`.
 
-Member types are the types of `Val/Model.lean` plus strings with patterns.  Core Lean only (linked into `lydrv`).
+Member types are the types of `Val/Model.lean` plus strings with patterns (`MTy`), seen by the union as plug-in records (`Plug`);
+identityref is available as a member as well (`idrefPlug`).  Core Lean only (linked into `lydrv`).
 -/
 namespace LyModel.Val
 open LyModel
@@ -35,12 +37,14 @@ inductive MErr
   | val (e : VErr)      -- an error of the types of `Val/Model.lean`
   | Pattern             -- "Unsatisfied pattern"
   | NoMember            -- "Invalid union value … no matching subtype found"
+  | ident (e : Ident.IErr)   -- an error of the identityref plug-in (member of a union)
   deriving DecidableEq, Repr
 
 def MErr.name : MErr → String
   | .val e => e.name
   | .Pattern => "Pattern"
   | .NoMember => "NoMember"
+  | .ident e => e.name
 
 /-- `lyplg_type_store_string`: UTF-8 check, hints, length, then every pattern on the whole value.  (A value that passes
     `ly_checkutf8` but is not a sequence of Unicode scalar values cannot be given to the matcher: `BadUtf8`.) -/
@@ -104,19 +108,62 @@ def unlyb (m : MTy) (b : Bytes) : Except MErr Value :=
 
 end MTy
 
+/-! ## type plug-ins as records (`struct lyplg_type`): what a union sees of a member type -/
+
+/-- the callbacks of a compiled member type: `store` (text formats, with the hints), `print` canonical, `compare`, `sort`, `print` LYB,
+    `store` LYB -/
+structure Plug where
+  store : Nat → Bytes → Except MErr Value
+  canon : Value → Bytes
+  cmpEq : Value → Value → Bool
+  sort : Value → Value → Int
+  lyb : Value → Bytes
+  unlyb : Bytes → Except MErr Value
+
+/-- the plug-in of a modelled member type -/
+def MTy.plug (m : MTy) : Plug := ⟨m.store, m.canon, m.cmpEq, m.sort, m.lyb, m.unlyb⟩
+
+/-- module part / name part of a canonical identityref value `module:name` -/
+def identMod (s : Bytes) : Bytes := s.takeWhile (· != 58)
+def identName (s : Bytes) : Bytes := (s.dropWhile (· != 58)).drop 1
+
+/-- The identityref plug-in as a union member.  `pm` resolves the prefixes of the format the value arrives in (the union hands its
+    format and prefix data on to the member: `union_store_type`), `pmJson` the module names of the LYB / canonical form.  The stored
+    identity is represented by its canonical string `module:name` (module names contain no colon). -/
+def idrefPlug (c : Ident.IdCtx) (bases : List Ident.Ident) (pm pmJson : Ident.PrefixMap) : Plug :=
+  let st := fun (p : Ident.PrefixMap) (hints : Nat) (s : Bytes) =>
+    match Ident.storeId c bases p hints s with
+    | .ok i => (.ok (.str (Ident.canonId i)) : Except MErr Value)
+    | .error e => .error (.ident e)
+  let cn := fun (v : Value) => match v with
+    | .str s => s
+    | _ => []
+  { store := st pm
+    canon := cn
+    cmpEq := fun a b => match a, b with
+      | .str x, .str y => x == y
+      | _, _ => false
+    sort := fun a b => match a, b with
+      | .str x, .str y => Ident.sortId ⟨identMod x, identName x⟩ ⟨identMod y, identName y⟩
+      | _, _ => 0
+    lyb := cn
+    unlyb := st pmJson Generated.LYD_HINT_DATA }
+
 /-! ## union -/
 
-/-- a `type` statement: a member type or a union of `type` statements -/
+/-- a `type` statement: a modelled member type, another member plug-in (identityref), or a union of `type` statements -/
 inductive UTy
   | mem (m : MTy)
+  | ext (p : Plug)
   | union (ms : List UTy)
 
 mutual
 /-- `lys_compile_type_union`: the compiled `types` array — nested unions are replaced by their members, in place -/
-def UTy.flatten : UTy → List MTy
-  | .mem m => [m]
+def UTy.flatten : UTy → List Plug
+  | .mem m => [m.plug]
+  | .ext p => [p]
   | .union ms => UTy.flattenList ms
-def UTy.flattenList : List UTy → List MTy
+def UTy.flattenList : List UTy → List Plug
   | [] => []
   | u :: r => u.flatten ++ UTy.flattenList r
 end
@@ -129,7 +176,7 @@ structure UVal where
   deriving DecidableEq, Repr
 
 /-- `union_find_type`: the loop `for (u = 0; u < count; ++u) if (store(types[u]) succeeds) break;` from index `i` on -/
-def findType : List MTy → Nat → Nat → Bytes → Option UVal
+def findType : List Plug → Nat → Nat → Bytes → Option UVal
   | [], _, _, _ => none
   | m :: r, i, hints, s =>
     match m.store hints s with
@@ -137,19 +184,19 @@ def findType : List MTy → Nat → Nat → Bytes → Option UVal
     | .error _ => findType r (i + 1) hints s
 
 /-- `lyplg_type_store_union`, text formats -/
-def storeU (ms : List MTy) (hints : Nat) (s : Bytes) : Except MErr UVal :=
+def storeU (ms : List Plug) (hints : Nat) (s : Bytes) : Except MErr UVal :=
   match findType ms 0 hints s with
   | some u => .ok u
   | none => .error .NoMember
 
 /-- canonical value: `subvalue->value._canonical` -/
-def canonU (ms : List MTy) (u : UVal) : Bytes :=
+def canonU (ms : List Plug) (u : UVal) : Bytes :=
   match ms[u.idx]? with
   | some m => m.canon u.val
   | none => []
 
 /-- `lyplg_type_compare_union` -/
-def cmpEqU (ms : List MTy) (a b : UVal) : Bool :=
+def cmpEqU (ms : List Plug) (a b : UVal) : Bool :=
   if a.idx != b.idx then false
   else match ms[a.idx]? with
     | some m => m.cmpEq a.val b.val
@@ -157,7 +204,7 @@ def cmpEqU (ms : List MTy) (a b : UVal) : Bool :=
 
 /-- `lyplg_type_sort_union`: values of different members are ordered by the position of the member; the one stored by the
     earlier member is reported as the GREATER one (`rc = 1` when `types[u] == val1->…realtype` is met first) -/
-def sortU (ms : List MTy) (a b : UVal) : Int :=
+def sortU (ms : List Plug) (a b : UVal) : Int :=
   if a.idx == b.idx then
     match ms[a.idx]? with
     | some m => m.sort a.val b.val
@@ -166,14 +213,14 @@ def sortU (ms : List MTy) (a b : UVal) : Int :=
 
 /-- `lyb_union_print`: the member is looked up again (`union_find_type` on the original text — the same member), then
     4-byte little-endian index + the member's LYB value -/
-def lybU (ms : List MTy) (u : UVal) : Bytes :=
+def lybU (ms : List Plug) (u : UVal) : Bytes :=
   match ms[u.idx]? with
   | some m => leBytes Generated.unionIdxSize u.idx ++ m.lyb u.val
   | none => []
 
 /-- `lyplg_type_store_union` with `LY_VALUE_LYB`: `lyb_union_validate` (size ≥ 4, index < count), then the member named by
     the index stores the rest in LYB format — no other member is tried -/
-def unlybU (ms : List MTy) (b : Bytes) : Except MErr UVal :=
+def unlybU (ms : List Plug) (b : Bytes) : Except MErr UVal :=
   if b.length < Generated.unionIdxSize then .error (.val .LybSize)
   else
     let idx := ofLe (b.take Generated.unionIdxSize)
